@@ -192,6 +192,24 @@ theorem C20_nested_inlining_partial {V : Type} [PyVal V] (interp : Interp V) (de
     ∀ (k : Nat) (r : Ref), refs[k]? = some r → ∃ v, outs[k]? = some v ∧ resolve vs.ρ r = .ok v :=
   VM.C20_nested_inlining interp defs hnf i args outs hev st refs htr a hrun hdone
 
+/-- C10: the activation flag is read through the whole reference (id and key path); a node whose flag is
+    falsy yields None in the denotation, a node whose flag is truthy yields its function's value; and
+    in every returning execution, whatever the schedule, the recorded result of a deactivated node is
+    None — which is what its dependents read.  (That a deactivated node is never *started* is
+    `C03_exactly_once_at_done`; nested-call flags: see `C20_nested_inlining_partial`.) -/
+theorem C10_flag_reads_full_reference {V : Type} [PyVal V] (ρ : Results V) (r : NodeRec) (a : Ref)
+    (h : r.active = some a) : activeOf ρ r = (resolve ρ a).map PyVal.truthy :=
+  VM.activeOf_reads_full_reference ρ r a h
+
+theorem C10_execution_inactive_none {V : Type} [PyVal V] (c : ECfg V) (a : Attrs) (hwf : WF c) {tr vs}
+    (hv : VRun c a tr vs) (hd : vs.st.pc = .done) {n : TM.Node} (hn : n ∈ c.nodes)
+    (h : activeOf (den c) (c.recOf n) = .ok false) : vs.ρ n = some PyVal.none :=
+  VM.C10_execution_inactive_none c a hwf hv hd hn h
+
+theorem C10_active_runs {V : Type} [PyVal V] (c : ECfg V) (hwf : WF c) {n : TM.Node} (hn : n ∈ c.nodes) {v : V}
+    (h : activeOf (den c) (c.recOf n) = .ok true) (hc : callOf c.interp (den c) (c.recOf n) = .ok v) :
+    den c n = some v := VM.C10_active_runs c hwf hn h hc
+
 /-- C11: over any history of successful operations on one instance no setup node is entered twice. -/
 theorem C11_setup_at_most_once {V : Type} [PyVal V] (ops : List (Op V)) (i : Inst V) (hok : InstOK i)
     (hwf : ∀ (j : Inst V) (op : Op V), WF (opCfg j op)) (hall : AllSucceed i ops) :
